@@ -35,8 +35,12 @@ class StripRaiseFStrings(ast.NodeTransformer):
         return J().visit(node)
 
 
-def load_cut(modname, alias):
-    """Re-compile `modname` from its CURRENT source through the cuts and load it under `alias`."""
+def load_cut(modname, alias, use=None):
+    """Re-compile `modname` from its CURRENT source through the cuts and load it under `alias`.
+    `use` maps real module names to already cut modules that this module's imports should see."""
+    import importlib
+
+    importlib.import_module(modname)  # make sure the package and its siblings are initialised
     spec = importlib.util.find_spec(modname)
     src = open(spec.origin).read()
     tree = ast.parse(src)
@@ -48,7 +52,18 @@ def load_cut(modname, alias):
     mod.__package__ = modname.rpartition(".")[0]
     mod.__name__ = alias
     sys.modules[alias] = mod
-    exec(compile(tree, spec.origin, "exec"), mod.__dict__)
+    saved = {}
+    for real, cut in (use or {}).items():
+        saved[real] = sys.modules.get(real)
+        sys.modules[real] = cut
+    try:
+        exec(compile(tree, spec.origin, "exec"), mod.__dict__)
+    finally:
+        for real, old in saved.items():
+            if old is None:
+                sys.modules.pop(real, None)
+            else:
+                sys.modules[real] = old
     mod.__vf_cuts__ = {"CUT-FMT": tr.n}
     return mod
 
